@@ -2,6 +2,7 @@ package main
 
 import (
 	"encoding/json"
+	"reflect"
 	"fmt"
 	"go/types"
 	"strconv"
@@ -247,6 +248,12 @@ func (e *Exec) jsonUnmarshalInto(data string, target Iface) Value {
 // like encoding/json does.
 func (e *Exec) jsonAssign(tp Ptr, tt, st types.Type, v Value) Value {
 	if types.Identical(tt, st) {
+		if sv, ok := v.(*StructV); ok {
+			// decoding into an existing struct value only touches the members present in the JSON text:
+			// members dropped by `omitempty` keep whatever the target already holds
+			e.jsonMergeStruct(tp, tt, sv)
+			return Iface{}
+		}
 		e.store(tp, v)
 		return Iface{}
 	}
@@ -306,3 +313,56 @@ func (e *Exec) jsonModel(name string, fn *ssa.Function, args []Value) (Value, bo
 	}
 	return nil, false
 }
+
+func jsonOmitEmpty(tag string) (omit, skip bool) {
+	j := reflectStructTagGet(tag, "json")
+	if j == "-" {
+		return false, true
+	}
+	parts := strings.Split(j, ",")
+	for _, p := range parts[1:] {
+		if p == "omitempty" {
+			return true, false
+		}
+	}
+	return false, false
+}
+
+func (e *Exec) jsonMergeStruct(tp Ptr, t types.Type, v *StructV) {
+	st := under(t).(*types.Struct)
+	for i := 0; i < st.NumFields(); i++ {
+		f := st.Field(i)
+		if !f.Exported() {
+			continue
+		}
+		omit, skip := jsonOmitEmpty(st.Tag(i))
+		if skip {
+			continue
+		}
+		if omit {
+			z := e.isZero(f.Type(), v.F[i])
+			empty := z.Sym == nil && z.C
+			switch x := v.F[i].(type) {
+			case SliceV:
+				empty = x.Len == 0
+			case *MapObj:
+				empty = x == nil || len(x.E) == 0
+			case *StructV:
+				empty = false // encoding/json never omits structs
+			}
+			if z.Sym != nil {
+				empty = e.branch(z.Sym)
+			}
+			if empty {
+				continue
+			}
+		}
+		if sv, ok := v.F[i].(*StructV); ok && !isNamed(f.Type(), "reflect", "Value") {
+			e.jsonMergeStruct(tp.sub(i), f.Type(), sv)
+			continue
+		}
+		e.store(tp.sub(i), v.F[i])
+	}
+}
+
+func reflectStructTagGet(tag, key string) string { return reflect.StructTag(tag).Get(key) }
